@@ -74,6 +74,17 @@ def guard(rc):
 
             fm = path_formula(s, atomize)
             rc.ob(f"{cname}.add_edge -> base add_edge({a}, {b}) under {show_formula(fm)}")
+            # the edge that was checked must be the edge that is added: no re-binding of its endpoints in between
+            guard_lines = [t.lineno for t, pol in s.conds if any(isinstance(x, ast.Call) and call_name(x) == "has_path" for x in ast.walk(t))]
+            if guard_lines:
+                lo, hi = min(guard_lines), s.node.lineno
+                for n in walk_no_nested(f.node):
+                    if isinstance(n, (ast.Assign, ast.AugAssign)) and lo < n.lineno < hi:
+                        tg = n.targets if isinstance(n, ast.Assign) else [n.target]
+                        names = {x.id for t in tg for x in ast.walk(t) if isinstance(x, ast.Name)}
+                        if names & {a, b}:
+                            rc.fail(f, n, f"{cname}.add_edge re-binds `{sorted(names & {a, b})[0]}` after the cycle test: the edge handed to the graph is not the edge that was checked",
+                                    construct=f"{cname} endpoint re-bound after guard")
             need = Not(And(A("in_a"), A("in_b"), A("path_back")))
             ok, cx, rows = implies(fm, need, extra_atoms=("in_a", "in_b", "path_back"))
             rc.report.rows += rows
@@ -95,6 +106,12 @@ def guard(rc):
         f = repo.func(rel, q)
         cs = calls_named(f, "add_edge")
         ok = cs and all(dotted(c.func.value) == "self" for c in cs)
+        for c in repo.calls_in(f):
+            if call_name(c) in ("add_edges_from", "add_weighted_edges_from", "add_edge", "update") and not (isinstance(c.func, ast.Attribute) and dotted(c.func.value) == "self"):
+                if isinstance(c.func, ast.Attribute) and (isinstance(c.func.value, ast.Call) and call_name(c.func.value) == "super" or (dotted(c.func.value) or "").startswith("nx.")):
+                    ok = False
+                    rc.fail(f, c, f"{q} hands edges to the base-class editor `{norm(c.func)}`: subclasses' cycle guards (BayesianNetwork.add_edge, ...) are bypassed on this path",
+                            construct=f"{q} bypass {call_name(c)}")
         rc.ob(f"{q} dispatches through self.add_edge: {bool(ok)}")
         if not ok:
             rc.fail(f, f.node, f"{q} must add each edge through self.add_edge (the guarded override)", construct="bulk route")
@@ -283,6 +300,12 @@ MUTANTS = [
          old="        if u in self.nodes() and v in self.nodes() and nx.has_path(self, u, v):", new="        if u in self.nodes() and v in self.nodes() and self.has_edge(u, v):"),
     dict(kind="break", name="dbn-bulk-bypasses-guard", file=DBN, expect="C15.guard",
          old="        for edge in ebunch:\n            self.add_edge(edge[0], edge[1])", new="        for edge in ebunch:\n            super(DynamicBayesianNetwork, self).add_edge(DynamicNode(*edge[0]), DynamicNode(*edge[1]))"),
+    dict(kind="break", name="dag-weighted-bulk-bypass", file=DAGF, expect="C15.guard",
+         old="            for index in range(len(ebunch)):\n                self.add_edge(ebunch[index][0], ebunch[index][1], weight=weights[index])",
+         new="            super(DAG, self).add_edges_from((e[0], e[1], {\"weight\": w}) for e, w in zip(ebunch, weights))"),
+    dict(kind="break", name="dbn-fold-after-guard", file=DBN, expect="C15.guard",
+         old="        super(DynamicBayesianNetwork, self).add_edge(start, end, **kwargs)\n\n        if start[1] == end[1]:",
+         new="        end = DynamicNode(end[0], end[1] - start[1])\n        start = DynamicNode(start[0], 0)\n        super(DynamicBayesianNetwork, self).add_edge(start, end, **kwargs)\n\n        if start[1] == end[1]:"),
     dict(kind="break", name="dag-constructor-no-cycle-check", file=DAGF, expect="C15.guard",
          old="        cycles = []\n        try:\n            cycles = list(nx.find_cycle(self))\n        except nx.NetworkXNoCycle:\n            pass\n        else:", new="        cycles = []\n        if False:"),
     dict(kind="break", name="add-cpds-validates-after-append", file=BN, expect="C15.atomic",
